@@ -1246,7 +1246,7 @@ void Logic::dumpHeaderToFile(std::ostream & dump_out) const {
     dump_out << "(set-logic " << getName() << ")\n";
     for (SSymRef ssr : sort_store.getSortSyms()) {
         if (isBuiltinSortSym(ssr)) continue;
-        dump_out << "(declare-sort " << sort_store.getSortSymName(ssr) << " " << sort_store.getSortSymSize(ssr)
+        dump_out << "(declare-sort " << protectName(sort_store.getSortSymName(ssr), false) << " " << sort_store.getSortSymSize(ssr)
                  << ")\n";
     }
 
@@ -1356,7 +1356,15 @@ SRef Logic::getSortRef(SymRef const sr) const {
 }
 
 std::string Logic::sortToString(SRef s) const {
-    return sort_store.sortToString(s);
+    SortSymbol const & symbol = sort_store[sort_store.getSortSym(s)];
+    std::string name = protectName(symbol.name, symbol.isInternal());
+    Sort const & sort = sort_store[s];
+    if (sort.getSize() == 0) { return name; }
+    name = "(" + name;
+    for (unsigned i = 0; i < sort.getSize(); i++) {
+        name += " " + sortToString(sort[i]);
+    }
+    return name + ")";
 }
 
 SRef Logic::getUniqueArgSort(SymRef sr) const {
